@@ -339,6 +339,50 @@ pub fn run(args: &[String]) -> i32 {
             });
         }
     }
+    // 5b. several files of one crate next to another crate, multi-file mode: every arrival order of the four files
+    {
+        let files: Vec<(String, String, String)> = vec![
+            ("sh".into(), "shared".into(), "#[typeshare]\npub struct Status { pub shared: u32 }\n#[typeshare]\npub struct Other { pub o: u32 }\n".into()),
+            ("st".into(), "api".into(), "#[typeshare]\npub struct Status { pub local: u32 }\n".into()),
+            ("rp".into(), "api".into(), "use shared::{Status, Other};\n#[typeshare]\npub struct Report { pub s: Status, pub o: Other }\n".into()),
+            ("lb".into(), "api".into(), "#[typeshare]\npub struct Lib { pub a: u32, pub r: Option<Report> }\n".into()),
+        ];
+        let stems: Vec<&str> = files.iter().map(|f| f.0.as_str()).collect();
+        let mut jobs2: Vec<(Lang, Vec<String>)> = Vec::new();
+        for perm in permutations(4) {
+            for lang in [Lang::TypeScript, Lang::Kotlin, Lang::Swift] {
+                let mut schedule = e3::start_barrier(&stems);
+                schedule.extend(perm.iter().map(|i| format!("send:{}", stems[*i])));
+                jobs2.push((lang, schedule));
+            }
+        }
+        let res2: Vec<Replay> = par_map(&jobs2, report::threads(), |(lang, schedule)| e3::replay_crates(&files, schedule, *lang, 4));
+        let mut per_lang: BTreeMap<&'static str, BTreeMap<String, usize>> = BTreeMap::new();
+        for (i, ((lang, _), r)) in jobs2.iter().zip(res2.iter()).enumerate() {
+            if r.class != "ok" {
+                if r.class == "schedule-infeasible" {
+                    rep.machinery(format!("schedule infeasible on the real binary (several-files-of-one-crate): {}", r.schedule.chars().take(200).collect::<String>()));
+                } else {
+                    rep.vios.add(Violation { sig: format!("C06|run-failed:{}|family=several-files-of-one-crate|{}", r.class, lang.name()), detail: json!({"argv": r.argv, "schedule": r.schedule, "stderr": r.stderr}) });
+                }
+                continue;
+            }
+            per_lang.entry(lang.name()).or_default().entry(outputs_key(r)).or_insert(i);
+        }
+        for (lang, outs) in &per_lang {
+            if outs.len() > 1 {
+                let idx: Vec<usize> = outs.values().copied().collect();
+                let show = |r: &Replay| r.outputs.iter().map(|(k, v)| format!("== {k}\n{}", String::from_utf8_lossy(v))).collect::<Vec<_>>().join("\n");
+                rep.vios.add(Violation {
+                    sig: format!("C06|nondeterministic-output|arrival-order|several-files-of-one-crate|{lang}|mode=multi"),
+                    detail: json!({"crates": files.iter().map(|f| json!({"file": f.0, "crate": f.1, "source": f.2})).collect::<Vec<_>>(), "distinct_outputs": outs.len(),
+                        "run_a": {"schedule": res2[idx[0]].schedule, "output": show(&res2[idx[0]])}, "run_b": {"schedule": res2[idx[1]].schedule, "output": show(&res2[idx[1]])}}),
+                });
+            }
+        }
+        rep.cov("several_files_of_one_crate", json!({"runs": jobs2.len(), "arrival_orders": 24, "languages": ["typescript", "kotlin", "swift"], "layout": "crate shared (1 file), crate api (3 files: one defines a type of the same name as an imported one)"}));
+        rep.cov_add("evaluations", jobs2.len() as u64);
+    }
     // 6. hash-order family (in-process, forced iteration orders)
     hashorder::c06_family(&mut rep);
     hashorder::c06_internal_sets_family(&mut rep);
